@@ -321,12 +321,14 @@ theorem findall_step (p : Prep) (fuel : Nat) (comp rest : Str) (g1 g2 : Option S
 theorem legalMatch_chars (p : Prep) (s : Str) (h : legalMatch p s = true) :
     s ≠ [] ∧ (∀ c ∈ s, c ∈ p.legalChars ∨ c = 10) ∧ (∀ c t, s = c :: t → c ∈ p.legalChars) := by
   unfold legalMatch at h
-  simp only [Bool.and_eq_true, Bool.not_eq_true', List.isEmpty_eq_false_iff, List.all_eq_true,
-    List.contains_eq_mem, decide_eq_true_eq, ne_eq] at h
-  by_cases hl : s.getLast? = some 10
-  · obtain ⟨ys, hys⟩ := List.getLast?_eq_some_iff.1 hl
+  by_cases hl : (p.legalNl && s.getLast? == some 10) = true
+  · have hl2 : s.getLast? = some 10 := by
+      simp only [Bool.and_eq_true, beq_iff_eq] at hl; exact hl.2
+    simp only [hl, if_true] at h
+    obtain ⟨ys, hys⟩ := List.getLast?_eq_some_iff.1 hl2
     subst hys
-    simp only [List.getLast?_concat, beq_self_eq_true, if_true, List.dropLast_concat] at h
+    simp only [List.dropLast_concat, Bool.and_eq_true, Bool.not_eq_true', List.isEmpty_eq_false_iff,
+      List.all_eq_true, List.contains_eq_mem, decide_eq_true_eq, ne_eq] at h
     refine ⟨by simp, ?_, ?_⟩
     · intro c hc
       simp only [List.mem_append, List.mem_singleton] at hc
@@ -339,8 +341,10 @@ theorem legalMatch_chars (p : Prep) (s : Str) (h : legalMatch p s = true) :
       | cons y ys' =>
         simp only [List.cons_append, List.cons.injEq] at hct
         exact hct.1 ▸ h.2 y (by simp)
-  · have hl' : (s.getLast? == some 10) = false := by simpa using hl
-    simp only [hl', Bool.false_eq_true, if_false] at h
+  · have hl' : (p.legalNl && s.getLast? == some 10) = false := by simpa using hl
+    simp only [hl', Bool.false_eq_true, if_false, Bool.and_eq_true, Bool.not_eq_true',
+      List.isEmpty_eq_false_iff, List.all_eq_true, List.contains_eq_mem, decide_eq_true_eq,
+      ne_eq] at h
     refine ⟨h.1, fun c hc => Or.inl (h.2 c hc), ?_⟩
     intro c t hct; subst hct; exact h.2 c (by simp)
 
@@ -635,10 +639,13 @@ theorem bare_asciiLower (p : Prep) (b : Backend) (hc : Compat p b) (n : Str) (h 
   calc n.map asciiLowerChar = n.map id := List.map_congr_left this
     _ = n := by simp
 
-theorem legalMatch_all (p : Prep) (s : Str) (h : legalMatch p s = true) (hnl : s.getLast? ≠ some 10) :
-    ∀ c ∈ s, c ∈ p.legalChars := by
+theorem legalMatch_all (p : Prep) (s : Str) (h : legalMatch p s = true)
+    (hnl : p.legalNl = false ∨ s.getLast? ≠ some 10) : ∀ c ∈ s, c ∈ p.legalChars := by
   unfold legalMatch at h
-  have hl' : (s.getLast? == some 10) = false := by simpa using hnl
+  have hl' : (p.legalNl && s.getLast? == some 10) = false := by
+    rcases hnl with h1 | h1
+    · simp [h1]
+    · simp [h1]
   simp only [hl', Bool.false_eq_true, if_false, Bool.and_eq_true, List.all_eq_true,
     List.contains_eq_mem, decide_eq_true_eq] at h
   exact h.2
@@ -659,7 +666,7 @@ theorem takeWhile_cont (b : Backend) (n rest : Str) (hn : ∀ c ∈ n, b.isCont 
 /-- **regular identifiers**: a name SQLAlchemy leaves unquoted is one token for the
     server, is not a keyword, and is stored as itself up to the server's case folding -/
 theorem lex_bare (p : Prep) (b : Backend) (hw : WF p) (hc : Compat p b) (n rest : Str)
-    (hb : requiresQuotes p n = some false) (hnl : n.getLast? ≠ some 10)
+    (hb : requiresQuotes p n = some false) (hnl : p.legalNl = false ∨ n.getLast? ≠ some 10)
     (hr : ∀ c t, rest = c :: t → b.isCont c = false) :
     lexIdent b (n ++ rest) = some (b.foldStr n, rest) := by
   obtain ⟨hres, hlegal, hlow, c, t, hct, hini⟩ := bare_facts p n hb
